@@ -149,21 +149,11 @@ class CContext:
         elif isinstance(typ, types.StructType):
             if not typ.is_complete:
                 self.error("Storage size unknown", typ.location)
-            if typ.fields:
-                alignment = max(
-                    self.alignment(part.typ) for part in typ.fields
-                )
-            else:
-                alignment = 1
+            alignment = self._members_alignment(typ)
         elif isinstance(typ, types.UnionType):
             if not typ.is_complete:
                 self.error("Type is incomplete, size unknown", typ)
-            if typ.fields:
-                alignment = max(
-                    self.alignment(part.typ) for part in typ.fields
-                )
-            else:
-                alignment = 1
+            alignment = self._members_alignment(typ)
         elif isinstance(typ, types.EnumType):
             if not typ.is_complete:
                 self.error("Storage size unknown", typ)
@@ -173,6 +163,19 @@ class CContext:
             alignment = self.arch_info.get_alignment("ptr")
         else:  # pragma: no cover
             raise NotImplementedError(str(typ))
+        return alignment
+
+    def _members_alignment(self, typ):
+        """Determine the alignment of a struct or union from its members.
+
+        The type of an unnamed bit-field does not contribute, it only
+        takes up room (System V ABI, as gcc does on most targets).
+        """
+        alignment = 1
+        for field in typ.fields:
+            if field.is_bitfield and field.name is None:
+                continue
+            alignment = max(alignment, self.alignment(field.typ))
         return alignment
 
     def layout_struct(self, typ):
